@@ -7,8 +7,10 @@
 package c04
 
 import (
+	"context"
 	"errors"
 	"fmt"
+	"io"
 	"sort"
 	"strconv"
 	"strings"
@@ -16,6 +18,8 @@ import (
 	discovery "github.com/envoyproxy/go-control-plane/envoy/service/discovery/v3"
 	rpcstatus "google.golang.org/genproto/googleapis/rpc/status"
 	"google.golang.org/grpc"
+	grpccodes "google.golang.org/grpc/codes"
+	grpcstatus "google.golang.org/grpc/status"
 
 	"istio.io/istio/pilot/pkg/model"
 	pxds "istio.io/istio/pilot/pkg/xds"
@@ -181,6 +185,8 @@ type fakeStream struct {
 	fail bool
 	sent int
 	log  []sentMsg
+	in   chan *discovery.DiscoveryRequest
+	ctx  context.Context
 }
 
 func (f *fakeStream) Send(r *discovery.DiscoveryResponse) error {
@@ -191,7 +197,29 @@ func (f *fakeStream) Send(r *discovery.DiscoveryResponse) error {
 	f.log = append(f.log, sentMsg{URL: r.TypeUrl, Nonce: r.Nonce})
 	return nil
 }
-func (f *fakeStream) Recv() (*discovery.DiscoveryRequest, error) { return nil, errors.New("no recv") }
+// Recv: without an input channel the stream has nothing to read; with one (stream family) it hands
+// out the queued client messages, then io.EOF once the client closed, or Canceled when the context ends.
+func (f *fakeStream) Recv() (*discovery.DiscoveryRequest, error) {
+	if f.in == nil {
+		return nil, errors.New("no recv")
+	}
+	select {
+	case r, ok := <-f.in:
+		if !ok {
+			return nil, io.EOF
+		}
+		return r, nil
+	case <-f.ctx.Done():
+		return nil, grpcstatus.Error(grpccodes.Canceled, "context canceled")
+	}
+}
+
+func (f *fakeStream) Context() context.Context {
+	if f.ctx == nil {
+		return context.Background()
+	}
+	return f.ctx
+}
 
 type fakeDeltaStream struct {
 	grpc.ServerStream
